@@ -40,11 +40,11 @@ try:
     missing = []
     if suite:
         base = json.load(open("/root/.vp/BASELINE.json"))["stable_pass"]
-        ids = [b.replace("tests.", "tests/", 1) for b in base]
-        ids = [i.split("::")[0].replace(".", "/") + ".py::" + i.split("::", 1)[1] for i in ids]
         os.remove(os.path.join(wt, "_seed_demo.py"))
         jx = os.path.join(wt, "_junit.xml")
-        t = run(["/venv/bin/python", "-m", "pytest", "-q", "-p", "no:cacheprovider", "--timeout=900", f"--junitxml={jx}"] + ids, env=dict(os.environ, MPLBACKEND="Agg"), timeout=3600)
+        # exactly the baseline command (whole suite, same order: some tests draw from the global RNG without seeding)
+        t = run(["/venv/bin/python", "-m", "pytest", "-ra", "-q", "-p", "no:cacheprovider", "--timeout=900", "--continue-on-collection-errors",
+                 f"--junitxml={jx}"], timeout=5400)
         passed = set()
         for tc in ET.parse(jx).iter("testcase"):
             if not any(ch.tag in ("failure", "error", "skipped") for ch in tc):
